@@ -15,6 +15,7 @@ def main():
     ap.add_argument("--tier", default=os.environ.get("VERIF_TIER", "quick"), choices=["quick", "thorough"])
     ap.add_argument("--replay")
     a = ap.parse_args()
+    core.TIER = a.tier
     build = core.prepare()
     if not build.driver_ok:
         print("build of the executable model failed:\n" + build.make_log[-3000:])
